@@ -160,6 +160,7 @@ structure Resized (p p' : Pool) (bytes : Nat) : Prop where
   hasBuf : p'.hasBuf = true
   below : ∀ r ∈ p'.resv, r.off + r.size ≤ p'.reserved
   slots : p'.resv.map (·.slot) = p.resv.map (·.slot)
+  members : ∀ r' ∈ p'.resv, ∃ r ∈ p.resv, r'.fam = r.fam ∧ r'.slot = r.slot
 
 theorem resize_ok {c : Cfg} (hc : c.Fixed) {d d' : Dev} {p p' : Pool} (h : PInv p) {bytes : Nat} {pack : Bool}
     (hres : p.resize c d bytes pack = .ok (d', p')) :
@@ -184,7 +185,7 @@ theorem resize_ok {c : Cfg} (hc : c.Fixed) {d d' : Dev} {p p' : Pool} (h : PInv 
     cases hres
     have hr0 : p.reserved = 0 := by rw [h.reserved_eq, hnil, measure_nil]
     refine ⟨⟨h.apos, hnil ▸ List.Pairwise.nil, by simp [hnil], by simp [zeros], ?_, by simp [hnil], by simp [hnil],
-      Or.inl rfl⟩, ⟨?_, ?_⟩, rfl, rfl, rfl, rfl, by simp [hnil], by simp [hnil]⟩
+      Or.inl rfl⟩, ⟨?_, ?_⟩, rfl, rfl, rfl, rfl, by simp [hnil], by simp [hnil], by simp [hnil]⟩
     · show p.reserved = measure p.align p.resv
       exact h.reserved_eq
     · intro k r hr; rw [hnil] at hr; simp [findSlot] at hr
@@ -214,7 +215,7 @@ theorem resize_ok {c : Cfg} (hc : c.Fixed) {d d' : Dev} {p p' : Pool} (h : PInv 
       · exact hb
       · rw [hl] at hb; cases hb.1
     refine ⟨⟨h.apos, sweep_sorted h.apos (stOK_rdn p.align) m ms hsort, ?_, pk.buflen, ?_, pk.famDisj, pk.nodup, Or.inl hbuf⟩,
-      ⟨pk.contents, pk.aliasing⟩, rfl, rfl, htot, hbuf, hbound, hslots⟩
+      ⟨pk.contents, pk.aliasing⟩, rfl, rfl, htot, hbuf, hbound, hslots, ?_⟩
     · intro r hr
       have hd := sweep_total_dvd p.align (rdn p.align) m ms
       have := rup_le_of_dvd h.apos hd (hbound r hr)
@@ -222,6 +223,10 @@ theorem resize_ok {c : Cfg} (hc : c.Fixed) {d d' : Dev} {p p' : Pool} (h : PInv 
       omega
     · show (sweep p.align (rdn p.align) m ms).total = measure p.align (sweep p.align (rdn p.align) m ms).resv
       exact (sweep_total_eq_measure h.apos (stOK_rdn p.align) (stAlign_rdn h.apos) m ms hsort).1.symm
+    · intro r' hr'
+      have spec := sweep_spec h.apos (stOK_rdn p.align) m ms hsort
+      obtain ⟨x, hx, hm⟩ := forall2_mem_right spec.moved r' hr'
+      exact ⟨x, hl ▸ hx, hm.2.2.1, hm.1⟩
 
 /-- C04: resizing below `reserved` raises an error (and nothing else does) -/
 theorem resize_err_iff {c : Cfg} {d : Dev} {p : Pool} (h : PInv p) (bytes : Nat) (pack : Bool) :
@@ -273,6 +278,8 @@ structure Realigned (p p' : Pool) (na : Nat) : Prop where
   packed : SameContents p p' ∧ SameAliasing p p'
   align : p'.align = na
   slots : p'.resv.map (·.slot) = p.resv.map (·.slot)
+  members : ∀ r' ∈ p'.resv, ∃ r ∈ p.resv, r'.fam = r.fam ∧ r'.slot = r.slot
+  size : p.resv = [] → p'.size = p.size
 
 theorem setAlignment_ok {d d' : Dev} {p p' : Pool} (h : PInv p) {na : Nat}
     (hres : p.setAlignment d na = .ok (d', p')) : 0 < na ∧ Realigned p p' na := by
@@ -285,12 +292,12 @@ theorem setAlignment_ok {d d' : Dev} {p p' : Pool} (h : PInv p) {na : Nat}
   split at hres
   · rename_i hsame
     cases hres
-    exact ⟨h, ⟨SameContents.refl _, SameAliasing.refl _⟩, hsame, rfl⟩
+    exact ⟨h, ⟨SameContents.refl _, SameAliasing.refl _⟩, hsame, rfl, fun r hr => ⟨r, hr, rfl, rfl⟩, fun _ => rfl⟩
   split at hres
   · rename_i hnil
     cases hres
     refine ⟨⟨hna', h.sorted, by simp [hnil], h.buflen, ?_, h.famDisj, h.nodup, h.hasBuf⟩,
-      ⟨SameContents.refl _, SameAliasing.refl _⟩, rfl, rfl⟩
+      ⟨SameContents.refl _, SameAliasing.refl _⟩, rfl, rfl, fun r hr => ⟨r, hr, rfl, rfl⟩, fun _ => rfl⟩
     show p.reserved = measure na p.resv
     rw [h.reserved_eq, hnil, measure_nil, measure_nil]
   · rename_i m ms hl
@@ -312,11 +319,15 @@ theorem setAlignment_ok {d d' : Dev} {p p' : Pool} (h : PInv p) {na : Nat}
       rw [hl]
       exact forall2_map_slot spec.moved (fun _ _ hm => hm.1)
     refine ⟨⟨hna', sweep_sorted hna' stOK_id m ms hsort, ?_, pk.buflen, ?_, pk.famDisj, pk.nodup, Or.inl hbuf⟩,
-      ⟨pk.contents, pk.aliasing⟩, rfl, hslots⟩
+      ⟨pk.contents, pk.aliasing⟩, rfl, hslots, ?_, fun hn => by rw [hl] at hn; cases hn⟩
     · intro r hr
       exact rup_le_of_dvd hna' (sweep_total_dvd na id m ms) (hbound r hr)
     · show (sweep na id m ms).total = measure na (sweep na id m ms).resv
       exact (sweep_total_eq_measure hna' stOK_id stAlign_id m ms hsort).1.symm
+    · intro r' hr'
+      have spec := sweep_spec hna' stOK_id m ms hsort
+      obtain ⟨x, hx, hm⟩ := forall2_mem_right spec.moved r' hr'
+      exact ⟨x, hl ▸ hx, hm.2.2.1, hm.1⟩
 
 theorem setAlignment_err {d : Dev} {p : Pool} (h : PInv p) {na : Nat} {e : Err}
     (he : p.setAlignment d na = .error e) : e = .err ∧ na = 0 := by
